@@ -65,7 +65,8 @@ SHIPPED_HW = [
     ("routeros", "RouterOS CCR1036"), ("pc", "PC"), ("optixtrans", "Huawei OptiXtrans DC908"), ("h3c", "H3C S6850"),
 ]
 
-_WORD_RE = ["[ab]+", "(a|c)", "x\\d", "[a-c]{2}", "(?:foo|ba)", "\\w+", "\\w*Eth[0-9\\/]+", "[a-z]+\\/\\d"]
+_WORD_RE = ["[ab]+", "(a|c)", "x\\d", "[a-c]{2}", "(?:foo|ba)", "\\w+", "\\w*Eth[0-9\\/]+", "[a-z]+\\/\\d",
+            "(ge|xe)-(\\d+)", "(\\d+)\\.(\\d+)", "(\\d+)|(all)"]   # (regexes made of several groups: the key is still the whole word)
 
 
 @st.composite
@@ -83,14 +84,16 @@ def _cases(draw):
     tilde = draw(st.booleans())
     icase = draw(st.integers(0, 4)) == 0
     vendor = draw(st.sampled_from(["huawei", "cisco", "juniper", "routeros", "pc", "arista"]))
-    words = st.sampled_from(["a", "b", "c", "ab", "A", "B", "x1", "x12", "foo", "ba", "bb", "cc", "undo", "no", "delete", "abc", "Eth1/0/1", "ge/1", "notify", "undone"])
+    words = st.sampled_from(["a", "b", "c", "ab", "A", "B", "x1", "x12", "foo", "ba", "bb", "cc", "undo", "no", "delete", "abc", "Eth1/0/1", "ge/1", "notify", "undone", "ge-1", "xe-12", "1.2", "all", "7"])
     rows = draw(st.lists(st.lists(words, min_size=1, max_size=8).map(" ".join), min_size=1, max_size=6))
     # how the rule file separates the words of the line (hand-aligned rule files use tabs and runs of blanks), and whether the line
     # carries a %param (the parser takes a different path for lines with and without params)
     sep = draw(st.sampled_from([" ", " ", " ", "\t", "  ", "   "]))
     param = draw(st.sampled_from(["", "", " %comment=x", "  %comment=x"]))
     return {"kind": "gen", "pattern": ("(?i)" if icase else "") + " ".join(toks) + (" ~" if tilde else ""), "vendor": vendor, "rows": rows,
-            "sep": sep, "param": param}
+            "sep": sep, "param": param,
+            # the same line also as a rule nested under a block rule that ignores case: flags belong to the line that carries them
+            "nested_under": draw(st.sampled_from([None, None, "(?i)blk *", "blk * %ignore_case", "blk *"]))}
 
 
 def strategy(tier):
@@ -107,7 +110,7 @@ def _positive(toks):
             out += ["c", "a"]
         elif t.startswith("*/"):
             for cand in ["a", "ab", "c", "x1", "ba", "cc", "foo", "b", "Eth1/0/1", "GigabitEthernet1/0/1", "Ethernet1/1", "ge/1", "10GE1/0/1",
-                         "Vlanif10", "port-channel10", "Loopback0", "100", "Eth-Trunk1"]:
+                         "Vlanif10", "port-channel10", "Loopback0", "100", "Eth-Trunk1", "ge-1", "1.2", "all"]:
                 if re.fullmatch(t[2:-1], cand):
                     out.append(cand)
                     break
@@ -278,6 +281,23 @@ def _gen(case):
         imp = implicit.compile_tree({"x": {"row": pattern, "type": "normal", "children": {}}})
     except Exception as e:   # a rule line of the grammar must compile in every rulebook kind
         raise Violation("compile-raises", f"rule line {text!r} ({vendor}) does not compile: {type(e).__name__}: {e}", {"pattern": pattern, "text": text})
+    if case.get("nested_under"):
+        labels.append("nested-rule")
+        ntext = case["nested_under"] + "\n    " + text
+        try:
+            (blk,) = compile_patching_text(ntext, vendor)["local"].values()
+            (crule,) = blk["children"]["local"].values()
+        except Exception as e:
+            raise Violation("compile-raises", f"rule text {ntext!r} ({vendor}) does not compile: {type(e).__name__}: {e}", {"text": ntext})
+        for row in rows:
+            for r2 in (row, row.upper(), row.capitalize()):
+                m = crule["attrs"]["regexp"].match(r2)
+                got = None if m is None else tuple(m.groups())
+                exp = ref_match(toks, r2, icase)
+                if got != exp:
+                    raise Violation("match", f"rule {pattern!r} nested under {case['nested_under']!r}: row {r2!r} gives {got!r}, the rule language "
+                                    f"says {exp!r} (a rule matches case-insensitively only if IT carries (?i) / %ignore_case)",
+                                    {"pattern": pattern, "row": r2, "text": ntext})
     plain = pattern.replace("(?i)", "").strip()
     starts_rev = toks[0] == rev and len(toks) > 1
     # negating a negated rule gives back the plain rule
